@@ -93,7 +93,12 @@ def replay(case):
 def build_case(data):
     t = Tape(data)
     T = t.int(1, len(CATS))
-    cats = CATS[:T]
+    # the inventory is drawn per case (subset in a drawn order): successive calls in one process see
+    # different inventories of the same length, as two models' tag sets would
+    pool = list(CATS)
+    cats = []
+    for _ in range(T):
+        cats.append(pool.pop(t.below(len(pool))))
     cd = {}
     for w in VOCAB:
         if t.chance(120):
@@ -223,7 +228,7 @@ def _shard(ctx, shard, nshards):
 
     def factory():
         @seed(runner.hseed(ctx, 17))
-        @runner.hsettings(ctx.scale(800, 6000))
+        @runner.hsettings(ctx.scale(800, 25000))
         @given(tapes(500))
         def test(data):
             case = build_case(data)
